@@ -289,6 +289,22 @@ func genCase(t *rapid.T, p genProfile) simCase {
 		at := rapid.IntRange(0, len(ops)).Draw(t, "fc-at")
 		ops = append(ops[:at:at], append(seq, ops[at:]...)...)
 	}
+	if p.fOnly {
+		// the minority phase starts at the first vote op: give most cases committed heights below it
+		// (a committing view, changed validator sets) by putting honest macro rounds in front
+		nr := weighted(t, "f-prefix-rounds", []int{0, 1, 2, 3}, []int{3, 3, 3, 1})
+		pre := make([]Op, 0, nr)
+		for i := 0; i < nr; i++ {
+			o := Op{K: "round", P: rapid.IntRange(0, cfg.N-1).Draw(t, "f-prefix-proposer"), D: rapid.IntRange(0, 3).Draw(t, "f-prefix-data")}
+			if rapid.IntRange(0, 1).Draw(t, "f-prefix-partial") == 0 {
+				// some validators stay silent, so that a late vote for the committed height can be new
+				o.S = genMask(t, cfg.N, "f-prefix-pcmask")
+				o.PS = genMask(t, cfg.N, "f-prefix-pvmask")
+			}
+			pre = append(pre, o)
+		}
+		ops = append(pre, ops...)
+	}
 	if p.stallFirst {
 		switch rapid.IntRange(0, 3).Draw(t, "stallfirst") {
 		case 0:
